@@ -181,8 +181,8 @@ func (g *gen) word(n int, mixed bool) string {
 	return string(b)
 }
 
-// a string argument: words of letters and digits separated by blanks (no characters that need escaping,
-// none of ' . : _ whose word-joining in golang.org/x/text is not modelled)
+// a string argument: words of letters and digits separated by blanks (no characters that need escaping);
+// some with ' . : _ inside a word (each ends a word for ~:( and ~@( )
 func (g *gen) str() string {
 	n := g.r.Intn(4)
 	var ws []string
@@ -193,6 +193,9 @@ func (g *gen) str() string {
 		}
 		if g.r.Chance(10) {
 			w = w + "-" + g.word(2, true)
+		}
+		if g.r.Chance(12) {
+			w = w + common.Pick(g.r, []string{"'", ".", ":", "_"}) + g.word(1+g.r.Intn(2), true)
 		}
 		ws = append(ws, w)
 	}
